@@ -11,7 +11,7 @@ from xmc.pathmodel import Path, align, norm_ws
 ID = "C06"
 LEVEL = "model_checking"
 TECHNIQUE = "explicit-state small-scope exploration: every string of bounded length over an adversarial fragment alphabet x every text-bearing channel x reference placement x language mode x container, executed on the implementation; recovered text compared character for character and document skeleton compared with the inert-text run"
-CLAIM = ("Every concatenation up to the bound of 27 adversarial fragments (XML metacharacters, entity/CDATA/comment look-alikes, quotes, "
+CLAIM = ("Every concatenation up to the bound of 29 adversarial fragments (XML metacharacters, entity/CDATA/comment look-alikes, quotes, "
          "braces, astral and RTL Unicode, edge/double spaces) is placed in each of 15 text-bearing channels, with and without embedded "
          "references, in single- and two-language forms; the real converter runs and a strict parser must recover the text from the "
          "channel's place, and the element/attribute skeleton must equal that of the same form holding the inert text 'x'.")
@@ -24,15 +24,15 @@ ASSUMPTIONS = [
     "C0/C1 control characters, newline and tab are outside the statement's alphabet and not explored",
 ]
 BOUND = {
-    "quick": "strings of <=2 fragments (756) x 15 channels x applicable reference placements x {one, two languages} on dict input; single fragments additionally through md and xlsx",
-    "thorough": "strings of <=3 fragments (20 439) x 15 channels x reference placements x language modes on dict input; strings of <=2 through md and xlsx",
+    "quick": "strings of <=2 fragments (870) x 15 channels x applicable reference placements x {one, two languages} on dict input; single fragments additionally through md and xlsx",
+    "thorough": "strings of <=3 fragments (25 259) x 15 channels x reference placements x language modes on dict input; strings of <=2 through md and xlsx",
 }
 # as-built additions to the bound (kept next to BOUND so that the evidence reports them)
-BOUND = {k: v + "; plus: " + 'a function look-alike fragment (pulldata(..)); a question with a guidance hint and media emitted before the cell under test; the same text in a second cell (other row / other language) and a reference-bearing neighbour cell emitted just before the cell under test' for k, v in BOUND.items()}
+BOUND = {k: v + "; plus: " + 'three function look-alike fragments (pulldata(..), a bare instance( and instance(x)); a question with a guidance hint and media emitted before the cell under test; the same text in a second cell (other row / other language) and a reference-bearing neighbour cell emitted just before the cell under test' for k, v in BOUND.items()}
 
 FRAGS = ["<", ">", "&", '"', "'", "]]>", "&amp;", "&#60;", "&lt;", "&quot;", "&nbsp;", "<!--", "-->", "<![CDATA[",
          '<output value="x"/>', "</label>", "{", "}", "$", "a", "é", "\U0001F600", "שלום", "a  b", " ", "-",
-         "pulldata('pf', 'a', 'b', 'c')"]  # (instance('x')/.. in a label is an output by design, like ${x}; a message that is literally jr:itext('id') is passed through as a reference)
+         "pulldata('pf', 'a', 'b', 'c')", "instance(", "instance(x) "]  # (instance('x')/.. in a label is an output by design, like ${x}; a message that is literally jr:itext('id') is passed through as a reference)
 SIGNIFICANT = set("<>&\"']")
 CHANNELS = ["label", "hint", "guidance_hint", "constraint_message", "required_message", "glabel", "clabel",
             "cextra", "default", "form_title", "version", "appearance", "attrval", "instval", "bindval"]
